@@ -5,6 +5,7 @@ import (
 	"go/types"
 	"strconv"
 	"strings"
+	"unicode/utf8"
 
 	"golang.org/x/tools/go/ssa"
 )
@@ -221,6 +222,12 @@ func init() {
 	}
 	I["strings.ReplaceAll"] = func(ex *Exec, th *Thread, fn *ssa.Function, a []Value) (Value, bool) {
 		return strV{s: strings.ReplaceAll(cstr(a[0]), cstr(a[1]), cstr(a[2]))}, false
+	}
+	I["strings.ToValidUTF8"] = func(ex *Exec, th *Thread, fn *ssa.Function, a []Value) (Value, bool) {
+		return strV{s: strings.ToValidUTF8(cstr(a[0]), cstr(a[1]))}, false
+	}
+	I["unicode/utf8.ValidString"] = func(ex *Exec, th *Thread, fn *ssa.Function, a []Value) (Value, bool) {
+		return ex.tc.Bool(utf8.ValidString(cstr(a[0]))), false
 	}
 	I["strings.Split"] = func(ex *Exec, th *Thread, fn *ssa.Function, a []Value) (Value, bool) {
 		parts := strings.Split(cstr(a[0]), cstr(a[1]))
